@@ -9,6 +9,7 @@ arithmetic).
 -/
 import Flowdyn.Num
 import Mathlib.Algebra.BigOperators.Group.Finset.Basic
+import Mathlib.Data.Rat.Floor
 
 namespace Flowdyn
 variable {α : Type} [Field α]
@@ -37,6 +38,10 @@ morphed faces `xf[-1]-xf[0]` -/
 def morphedMesh (n : ℕ) (L x0 : α) (morph : α → α) : Mesh1D α :=
   { n := n, xf := fun i => morph ((i : α) * (L / n) + x0),
     length := morph ((n : α) * (L / n) + x0) - morph ((0 : ℕ) * (L / n) + x0) }
+
+/-- number of cells of the first zone of `refinedmesh`: `nc1 = int(ncell*a/(a+b)*(1+1e-12))` — the integer part of the zone
+proportion, with a relative guard of 1e-12 against the round-off of the float quotient (executable at ℚ) -/
+def refinedNc1 (n : ℕ) (a b : ℚ) : ℕ := ⌊((n : ℚ) * a / (a + b)) * (1 + 1 / 10 ^ 12)⌋.toNat
 
 /-- `refinedmesh(ncell, length, ratio, nratioa, nratiob)` with `nc1 = int(ncell*a/(a+b))` cells in
 the first zone: `append(linspace(0, dx1*nc1, nc1, endpoint=False), linspace(dx1*nc1, length, nc2+1))` -/
